@@ -80,19 +80,32 @@ def text_of(spec):
     return '\n'.join('%s %s %s' % (names[r['i']], r['cmp'], r['rhs']) for r in spec['rels'])
 
 
-def build(spec):
+def _loc(spec, r=None):
+    """(g, named constants, tol, rel) in force for relation r of spec (per-relation entries: jointly compiled groups)"""
+    d = spec if r is None or 'g' not in r else r
+    t = d.get('tols') or {}
+    return GF3[d['g']], d.get('consts') or {}, t.get('tol', 1e-15), t.get('rel', 1e-15)
+
+
+def solvers(spec):
     import mystic.symbolic as ms
     names = names_of(spec['scheme'], spec['nv'])
     var = spec['scheme'] if spec['scheme'] in 'xy' else names
     kw = {'nvars': spec['nv']} if spec['nvars_arg'] else {}
-    solv = ms.generate_solvers(text_of(spec), variables=var, locals={'g': GF[spec['g']]}, **kw)
-    return ms.generate_constraint(solv)
+    g, consts, _, _ = _loc(spec)
+    return ms.generate_solvers(text_of(spec), variables=var, locals=dict(consts, g=g, **(spec.get('tols') or {})), **kw)
+
+
+def build(spec):
+    import mystic.symbolic as ms
+    return ms.generate_constraint(solvers(spec))
 
 
 def rhs_at(spec, r, v):
     """independent evaluation of the right-hand side text on vector v"""
     env = dict(zip(names_of(spec['scheme'], spec['nv']), v))
-    env.update(abs=abs, g=GF[spec['g']])
+    g, consts, _, _ = _loc(spec, r)
+    env.update(consts, abs=abs, g=g)
     return eval(r['rhs'], {'__builtins__': {}}, env)
 
 
@@ -150,15 +163,20 @@ def same(a, b):
     return len(a) == len(b) and all(float(p) == float(q) for p, q in zip(a, b))
 
 
-def check_vector(spec, c, kind, x, res, stats):
+def check_vector(spec, c, kind, x, res, stats, inp=None):
     """all clauses for one (program, input vector)"""
     fam = spec['family']
     key = 'C13/bounded/%s/' % fam
-    inp = dict(spec, x=jsonable(x))
+    inp = dict(spec, x=jsonable(x)) if inp is None else inp
     try:
         before = holds(spec, x)
     except OverflowError:
         before = None
+    for r, _, val in before or []:                    # a user-given tolerance below the float spacing at the boundary
+        t = _loc(spec, r)[2] + abs(val) * _loc(spec, r)[3]
+        if r['cmp'] in ('<', '>', '!=') and (val + t == val or val - t == val):
+            stats['skipped_tol_unresolvable'] = stats.get('skipped_tol_unresolvable', 0) + 1
+            return
     x0 = list(x)
     try:
         y = list(c(list(x)))
@@ -176,7 +194,9 @@ def check_vector(spec, c, kind, x, res, stats):
         stats['skipped_nonfinite'] = stats.get('skipped_nonfinite', 0) + 1
         return
     lhs = set(r['i'] for r in spec['rels'])
-    res.case('%s|%s' % (spec['tag'], kind), any(not h for _, h, _ in before), None)
+    res.case('%s|%s' % (spec['tag'], kind), any(not h for _, h, _ in before), None if len(res.samples) >= 4 else jsonable(
+        {'family': fam, 'text': text_of(spec), 'locals': [{k: r.get(k, spec.get(k)) for k in ('g', 'consts', 'tols')} for r in spec['rels']],
+         'kind': kind, 'point': x0, 'result': y, 'generated_with': inp.get('chain', {}).get('tag', 'single call')}))
     for r, h, val in after:
         if not h:
             res.violation(key + 'relation-holds', '%r: y[%d]=%r %s %r fails; x=%r y=%r' % (
@@ -184,7 +204,7 @@ def check_vector(spec, c, kind, x, res, stats):
     if not all(float(y[j]) == float(x0[j]) for j in range(len(x0)) if j not in lhs) or len(y) != len(x0):
         res.violation(key + 'frame', '%r: changed outside the left-hand variables; x=%r y=%r' % (text_of(spec), x0, y), inp)
     if all(h for _, h, _ in before) and not same(y, x0):
-        near = all(r['cmp'] in ('<', '>') and abs(x0[r['i']] - val) <= 1.0000001 * (1e-15 + abs(val) * 1e-15)
+        near = all(r['cmp'] in ('<', '>') and abs(x0[r['i']] - val) <= 1.0000001 * (_loc(spec, r)[2] + abs(val) * _loc(spec, r)[3])
                    for r, _, val in before if float(y[r['i']]) != float(x0[r['i']]))
         res.violation(key + 'identity-when-satisfied' + ('#strict-within-tol' if near else ''),
                       '%r: input satisfies every relation but was changed; x=%r y=%r' % (text_of(spec), x0, y), inp)
@@ -252,7 +272,8 @@ def check_box(spec, res, stats, nin, xs=None):
             res.violation(key + 'call-succeeds', 'box %r %r at %r: %s: %s' % (spec['min'], spec['max'], x0, type(e).__name__, e), inp)
             continue
         was_in = all(a <= v <= b for v, a, b in zip(x0, lo, hi))
-        res.case('%s|%s|%s|n=%d|%s' % (fam, spec['min'], spec['max'], n, kind), not was_in, None)
+        res.case('%s|%s|%s|n=%d|%s' % (fam, spec['min'], spec['max'], n, kind), not was_in, None if len(res.samples) >= 4 else jsonable(
+            {'family': fam, 'min': spec['min'], 'max': spec['max'], 'kwds': spec['kwds'], 'kind': kind, 'point': x0, 'result': y}))
         tag = '#min==max' if degenerate else ''
         if len(y) != n or not all(a <= v <= b for v, a, b in zip(y, lo, hi)):
             res.violation(key + 'in-box' + tag, 'box %r %r: x=%r -> y=%r leaves the box' % (spec['min'], spec['max'], x0, y), inp)
@@ -263,6 +284,65 @@ def check_box(spec, res, stats, nin, xs=None):
                 spec['min'], spec['max'], x0, y), inp)
 
 
+# ----------------------------------------------------------------------------- interleaved generation
+def gen_chain(cmp, scheme, mode, shape, seed):
+    """F1, F2 (, F3): programs over named constants K0, K1 / g / tol, rel; every later step rebinds the names `mode` says"""
+    rng = random.Random('chain|%s|%s|%s|%s|%d' % (cmp, scheme, mode, shape, seed))
+    prog = lambda c, s, n, k: gen_program(c, rng.choice(POSITIONS), s, 'named', n, seed * 31 + k, pool=NPOOL)
+    base = prog(cmp, scheme, rng.choice((2, 3)) if shape == 'joined' else rng.choice((1, 1, 2, 3)), 0)
+    locs = [{'g': rng.choice(sorted(GF3)), 'consts': {'K0': rng.choice(KVALS), 'K1': rng.choice(KVALS)}, 'tols': rng.choice(TOLSETS)}]
+    for k in range(1, 2 if shape == 'joined' else int(shape[-1])):
+        new = {'g': rng.choice([g for g in sorted(GF3) if all(g != l['g'] for l in locs)] or sorted(GF3)),
+               'consts': {n: rng.choice([v for v in KVALS if all(v != l['consts'][n] for l in locs)]) for n in ('K0', 'K1')},
+               'tols': rng.choice([t for t in TOLSETS if all(t != l['tols'] for l in locs)])}
+        locs.append({n: new[n] if mode in ({'g': 'g', 'consts': 'const', 'tols': 'tol'}[n], 'all') else locs[0][n] for n in new})
+    if shape == 'joined':                              # one program compiled in two groups, then composed
+        steps = [dict(base, rels=base['rels'][:1], **locs[0]), dict(base, rels=base['rels'][1:], **locs[1])]
+    else:
+        steps = [dict(base if shape.startswith('same') or k == 0 else prog(rng.choice(CMPS), rng.choice(SCHEMES),
+                                                                       rng.choice((1, 2, 3)), k), **l) for k, l in enumerate(locs)]
+    tag = 'chain|%s|%s|%s|%s' % (cmp, scheme, mode, shape)
+    steps = [dict(st, family='interleaved', tag='%s|F%d' % (tag, k + 1)) for k, st in enumerate(steps)]
+    return {'family': 'interleaved', 'steps': steps, 'shape': shape, 'mode': mode, 'seed': seed, 'tag': tag,
+            'conditions_last': rng.random() < .5}
+
+
+def check_chain(ch, res, stats, nin, only=None):
+    """generate every step in order (each with its own fresh locals dict), and only then evaluate each generated
+    function against its OWN text and locals"""
+    import mystic.symbolic as ms
+    solv = []
+    for st in ch['steps']:
+        try:
+            solv.append(solvers(st))
+        except Exception as e:
+            res.violation('C13/bounded/interleaved/builds', '%r: %s: %s' % (text_of(st), type(e).__name__, e), jsonable(ch))
+            return
+    targets = [(st, ms.generate_constraint(sv)) for st, sv in zip(ch['steps'], solv)]
+    if ch['shape'] == 'joined':
+        rels = [dict(r, g=st['g'], consts=st['consts'], tols=st['tols']) for st in ch['steps'] for r in st['rels']]
+        targets.append((dict(ch['steps'][0], rels=rels, family='interleaved-joined', tag=ch['tag'] + '|F1+F2'),
+                        ms.generate_constraint(solv[0] + solv[1])))
+    if ch['conditions_last']:                          # a later generation call of the other generator, other bindings
+        st = ch['steps'][0]
+        try:
+            with contextlib.redirect_stdout(io.StringIO()):
+                ms.generate_conditions(text_of(st), variables=st['scheme'] if st['scheme'] in 'xy' else names_of(st['scheme'], st['nv']),
+                                       nvars=st['nv'], locals={'g': min, 'K0': -77.0, 'K1': 1e9, 'tol': 0.25, 'rel': 0.25})
+        except Exception as e:
+            stats['aborted_conditions_call'] = stats.get('aborted_conditions_call', 0) + 1
+    stats['chains'] = stats.get('chains', 0) + 1
+    for k, (spec, c) in enumerate(targets):
+        if only is not None:
+            if k == only[0]:
+                check_vector(spec, c, 'replay', only[1], res, stats, inp={})
+            continue
+        rng = random.Random(ch['seed'] * 7919 + 131 * k + len(ch['tag']))
+        for kind, x in inputs(spec, nin, rng):
+            check_vector(spec, c, kind, x, res, stats, inp={'family': 'interleaved', 'chain': jsonable(ch), 'target': k,
+                                                            'x': jsonable(x), 'seed': ch['seed']})
+
+
 # ----------------------------------------------------------------------------- driver
 def _work(job):
     kind, specs, nin = job
@@ -271,6 +351,9 @@ def _work(job):
         seed_all(spec['seed'])
         if kind == 'box':
             check_box(spec, res, stats, nin)
+            continue
+        if kind == 'chain':
+            check_chain(spec, res, stats, nin)
             continue
         try:
             c = build(spec)
@@ -298,19 +381,37 @@ def run(tier='quick', seed=0):
              'Inputs where a right-hand side is not finite are skipped.  Adjacent-float inputs satisfying a strict '
              'relation within the documented tolerance are keyed #strict-within-tol.  boundsconstrain: random boxes '
              '(1-12 variables, None/inf sides, min==max, 1e+-300) with symbolic default/True/False, clip=True; inputs '
-             'inside, below, above, on the bounds, mixed, huge.  A distinct case = (program shape, input kind); '
-             'non-trivial = the input violates a relation / lies outside the box.',
-        bound='%s: %d x (7x4x4x5x3 = 1680 programs) x %d vectors; %d boxes x %d vectors' % (tier, reps, nin, nbox, nbin))
+             'inside, below, above, on the bounds, mixed, huge.  interleaved: complete product of first comparator x '
+             'naming scheme x rebinding mode (const, g, tol, all) x shape; F1 is generated from a text whose right-hand '
+             'sides use the named constants K0, K1, a function g and tol/rel, all given through locals; then F2 (and F3) '
+             'is generated from the same text (same2/same3) or another text (diff2/diff3) with locals that rebind '
+             'K0,K1 / g / tol,rel / all of them to different values, in half of the chains a generate_conditions call '
+             'with yet other bindings follows, and only then is every Fk run on its input vectors and judged against '
+             'its OWN text and locals (same clauses, key family interleaved).  joined: the relations of one program '
+             'are compiled in two groups by two generate_solvers calls with different locals and composed by one '
+             'generate_constraint(solvers1 + solvers2); every relation must hold with its own group\'s locals (family '
+             'interleaved-joined).  With user-given tol/rel an input is skipped when tol+|rhs|*rel is below the float '
+             'spacing at rhs (strictness not expressible); #strict-within-tol uses the relation\'s own tol/rel.  '
+             'A distinct case = (program shape, input kind); non-trivial = the input violates a relation / lies '
+             'outside the box.',
+        bound='%s: %d x (7x4x4x5x3 = 1680 programs) x %d vectors; %d boxes x %d vectors; %d x (7x4x4x5 = 560 chains of 2-3 '
+              'generation calls) x every generated function x %d vectors' % (tier, reps, nin, nbox, nbin, reps, nin))
     progs = [gen_program(c, p, s, k, n, seed * 100 + rep) for rep in range(reps)
              for c, p, s, k, n in itertools.product(CMPS, POSITIONS, SCHEMES, KINDS, (1, 2, 3))]
     boxes = [gen_box(seed * 1000003 + i) for i in range(nbox)]
+    chains = [gen_chain(c, s, m, h, seed * 100 + rep) for rep in range(reps)
+              for c, s, m, h in itertools.product(CMPS, SCHEMES, MODES, SHAPES)]
     jobs = [('rel', progs[i:i + 30], nin) for i in range(0, len(progs), 30)] + \
+           [('chain', chains[i:i + 12], nin) for i in range(0, len(chains), 12)] + \
            [('box', boxes[i:i + 3], nbin) for i in range(0, len(boxes), 3)]
-    tot = {}
+    tot, fams = {}, {}
     for part, stats in pmap(_work, jobs):
         res.merge(part)
+        for smp in part['samples']:
+            fams.setdefault(smp['family'], smp)
         for k, v in stats.items():
             tot[k] = tot.get(k, 0) + v
+    res.samples = list(fams.values())                  # one written-out case per scenario family
     res.extra.update(tot)
     res.extra['exhaustive'] = False
     return res.out()
@@ -323,6 +424,8 @@ def replay(inp):
     seed_all(spec['seed'])
     if spec['family'] == 'boundsconstrain':
         check_box(spec, res, stats, 1, x)
+    elif spec['family'] == 'interleaved':
+        check_chain(spec['chain'], res, stats, 1, only=(spec['target'], x))
     else:
         try:
             check_vector(spec, build(spec), 'replay', x, res, stats)
